@@ -107,6 +107,7 @@ func main() {
 		}
 	}
 	start := time.Now()
+	currentSeed = seed
 
 	plan := spec.Plan(*tier)
 	only := -1
@@ -123,6 +124,7 @@ func main() {
 			os.Exit(2)
 		}
 		seed, *tier, only = rp.Seed, rp.Tier, rp.Batch
+		currentSeed = seed
 		plan = spec.Plan(*tier)
 	}
 
